@@ -108,74 +108,64 @@ def run(ctx):
     # ---------------- D2
     d = ctx.body(AC + "::diff_inner")
     ctx.analysed_fns.add(AC + "::diff_inner")
-    eqs = []           # (true edges, names of the fields / callees on both sides)
-    for sb, sw in d.switches():
-        src = d.bool_operand_source(sw["op"])
-        if not src:
-            continue
-        if src["kind"] == "call":
-            t = src["t"]
-            names = set()
-            for a in t.get("args", []):
-                pv = d.provenance(a, through_calls=True)
-                names |= {norm_fn(c).split("::")[-1] for c in pv.callees()}
-                for l, pr in pv.places:
-                    o = d.origin(l, pr)
-                    names |= {e for e in o[1] if e.startswith(".") or e.startswith("@")}
-                    if 1 <= o[0] <= d.argc:
-                        names.add("param%d" % o[0])
-            eqs.append((true_edges(d, sb, sw, src), (norm_fn(src.get("decl") or src["callee"]) or "").split("::")[-1], names))
-        elif src["kind"] in ("bin",) and src["op"] == "Eq":
-            names = set()
-            for o_ in src["o"]:
-                pl = o_.get("c") or o_.get("m")
-                if pl:
-                    o = d.origin(pl["l"], tuple(pl["p"]))
-                    names |= {e for e in o[1] if e.startswith(".") or e.startswith("@")}
-                    if 1 <= o[0] <= d.argc:
-                        names.add("param%d" % o[0])
-            eqs.append((true_edges(d, sb, sw, src), "Eq", names))
 
-    def guard(fn_last, *must):
-        out = []
-        for es, last, names in eqs:
-            if last == fn_last and all(any(m in n for n in names) for m in must):
-                out += es
-        return out
-    # cached patches: a clone of the cache's patches is returned
+    def names_of(t):
+        names = set()
+        for a in t.get("args", []):
+            pv = d.provenance(a, through_calls=True)
+            names |= {norm_fn(c).split("::")[-1] for c in pv.callees()}
+            for l, pr in pv.places:
+                o = d.origin(l, pr)
+                names |= {e for e in o[1] if e.startswith(".") or e.startswith("@")}
+        return names
+
+    def call_pred(last, *must, forbid=()):
+        def pred(t):
+            if (norm_fn(t.get("fn")) or "").split("::")[-1] != last:
+                return False
+            n = names_of(t)
+            return all(any(m == x or m in x for x in n) for m in must) and not any(any(m == x for x in n) for m in forbid)
+        return pred
+    eq_calls = [t for _, t in d.calls() if (norm_fn(t.get("fn")) or "").split("::")[-1] == "eq" and d.local_ty(t["dst"]["l"]) == "bool"]
     cache_ret = [(bi, t) for bi, t in d.calls() if (norm_fn(t.get("fn")) or "").endswith("Clone::clone") and any(".diff_cache" in "".join(d.origin(l, pr)[1]) for l, pr in d.provenance(t["args"][0], through_calls=False).places)]
     ctx.floor("returns of the cached patches", len(cache_ret), 1)
-    g_range = guard("eq", ".diff_cache", "new") or guard("eq", "@Some", "new") or [e for es, last, names in eqs if last == "eq" and any("OpRange" in n or "new" == n for n in names) for e in es]
+    # the three comparisons against the cached key: each involves the cache's payload
+    cache_eqs = [t for t in eq_calls if any(".diff_cache" in x or "@Some" in x for x in names_of(t))]
+    plain_eq = []
+    for sb, sw in d.switches():
+        src = d.bool_operand_source(sw["op"])
+        if src and src["kind"] == "bin" and src["op"] == "Eq":
+            plain_eq.append((sb, sw, src))
     for k, (bi, t) in util.ordinal_keys(cache_ret, lambda it: "diff_inner|cached patches"):
-        doms = [es for es, last, names in eqs if es and d.edges_dominate(es, bi)]
-        ok = len(doms) >= 3
-        ctx.ob("D2", k, ok, t["sp"], "behind %d equality tests (range, object, recursive)" % len(doms) if ok else
-               "the cached patches are returned behind only %d equality test(s): a diff of another range, object or depth gets the cached answer" % len(doms))
+        n_dom = 0
+        for ct in cache_eqs:
+            es = cfg.cond_edges(d, atom_call=lambda t_, ct=ct: t_ is ct)
+            if es and d.edges_dominate(es, bi):
+                n_dom += 1
+        for sb, sw, src in plain_eq:                 # `*rec == recursive` is a plain bool comparison
+            es = true_edges(d, sb, sw, src)
+            if es and d.edges_dominate(es, bi):
+                n_dom += 1
+        ok = n_dom >= 3
+        ctx.ob("D2", k, ok, t["sp"], "behind %d equality tests (range, object, recursive)" % n_dom if ok else
+               "the cached patches are returned behind only %d equality test(s): a diff of another range, object or depth gets the cached answer" % n_dom)
     mk = [(bi, t) for bi, t in d.calls() if (callee(t) or "").endswith("PatchLog::make_patches")]
     ctx.floor("make_patches calls in diff_inner", len(mk), 3)
+    e_after = cfg.cond_edges(d, atom_call=call_pred("eq", "after", "get_heads"))
+    e_before = cfg.cond_edges(d, atom_call=call_pred("eq", "before", ".diff_cursor"))
+    e_active = cfg.cond_edges(d, atom_call=lambda t: (callee(t) or "").endswith("PatchLog::is_active"))
+    e_empty = cfg.cond_edges(d, atom_call=call_pred("is_empty", "before"))
     for k, (bi, t) in util.ordinal_keys(mk, lambda it: "diff_inner|make_patches"):
         o = d.operand_origin(t["args"][0])
         own_log = bool(o) and o[0] == 1 and ".patch_log" in o[1]
         if own_log:
-            need = [("after == heads", lambda n: "after" in n and "get_heads" in n), ("before == diff_cursor", lambda n: "before" in n and ".diff_cursor" in n), ("patch_log.is_active()", None)]
-            okc = []
-            for what, pred in need:
-                if pred is None:
-                    es = [e for es, last, names in eqs if last == "is_active" for e in es]
-                else:
-                    es = [e for es, last, names in eqs if pred(names) for e in es]
-                okc.append(bool(es) and d.edges_dominate(es, bi))
+            okc = [bool(e) and d.edges_dominate(e, bi) for e in (e_after, e_before, e_active)]
             ctx.ob("D2", k + "|incremental log", all(okc), t["sp"], "only when after == heads, before == diff_cursor and the log is active" if all(okc) else
                    "the session's incremental patch log answers a diff it was not kept for (after == heads: %s, before == diff_cursor: %s, active: %s)" % tuple(okc))
         else:
-            pv = d.provenance(t["args"][0], through_calls=True)
-            cs = {norm_fn(c).split("::")[-1] for c in pv.callees()}
-            # the current-state walk: log_current_state on a fresh log
             walk = [(wb, wt) for wb, wt in d.calls() if (callee(wt) or "").endswith("Automerge::log_current_state") and d.block_dominates(wb, bi)]
             if walk:
-                es1 = [e for es, last, names in eqs if last == "is_empty" and any("before" in n for n in names) for e in es]
-                es2 = [e for es, last, names in eqs if any("after" in n for n in names) and any("get_heads" in n for n in names) for e in es]
-                ok = bool(es1) and d.edges_dominate(es1, bi) and bool(es2) and d.edges_dominate(es2, bi)
+                ok = bool(e_empty) and d.edges_dominate(e_empty, bi) and bool(e_after) and d.edges_dominate(e_after, bi)
                 ctx.ob("D2", k + "|current-state walk", ok, t["sp"], "only when before is empty and after == heads" if ok else
                        "the walk over the current state answers a diff whose before heads are not empty or whose after heads are not the current ones")
             else:
